@@ -97,22 +97,19 @@ func expect(tier string) []string {
 		"proto=cpk", "proto=rlk1", "proto=rlk2", "proto=gal", "proto=evk",
 		"merge-mode=full", "merge-mode=leftdeep", "merge-mode=adjacent",
 		"merge-variant=plain", "merge-variant=swap", "merge-variant=hop-first", "merge-variant=hop-second", "merge-variant=alias-first", "merge-variant=alias-second",
-		"parties=1", "parties=2", "parties=3", "parties=4", "parties=6", "parties=8",
-		"chain=mid", "chain=mixed", "chain=mixup", "chain=nop",
-		"b2=0", "b2=7", "b2=16", "lp=-1", "lp=0", "lp=1", "lq=0",
+		"merge-variant=stream-first-1byte", "merge-variant=stream-second-split5",
+		"instances=copies-of-party0", "instances=all-constructed", "instances=chain-of-copies",
+		"history=first-use", "history=after-run-at-lower-shape", "history=after-run-at-other-shape",
+		"parties=1", "parties=2", "parties=3", "parties=4", "parties=5", "parties=6", "parties=7", "parties=8",
+		"chain=mid", "chain=mixed", "chain=mixup", "chain=nop", "chain=big", "chain=midci", "chain=mixedci", "chain=nopci",
+		"ntt=true", "ntt=false", "b2=0", "b2=7", "b2=16", "lp=-1", "lp=0", "lp=1", "lq=0",
 		"functional=cpk-encrypt", "functional=rlk-relinearize", "functional=gal-automorphism", "functional=evk-reencrypt",
 		"digits=unequal", "crs=replayed",
 		"mismatch=gal/galEl", "mismatch=evk/levelQ", "mismatch=evk/levelP", "mismatch=evk/base2", "mismatch=rlk/levelQ", "mismatch=rlk/base2",
 	}
-	if tier == "thorough" {
-		e = append(e, "parties=5", "parties=7", "chain=big")
-		for g := uint64(1); g < 32; g += 2 {
-			e = append(e, fmt.Sprintf("galEl=%d", g))
-		}
-	} else {
-		for _, g := range quickGalEls {
-			e = append(e, fmt.Sprintf("galEl=%d", g))
-		}
+	for g := uint64(1); g < 32; g += 2 {
+		e = append(e, fmt.Sprintf("galEl=%d", g))
 	}
+	e = append(e, "galEl=61", "galEl=125") // conjugate-invariant rings: -3 modulo 64 and 128
 	return e
 }
